@@ -416,4 +416,19 @@ theorem burst_files (s : Sys) (ops : List Op) (inv : InvRec s.fs s.k s.lib) (hs 
   simp only [hk, hs, hc, Bool.or_self, Bool.false_eq_true, if_false, hl fsN kN, hrecN, hem fsN, hmo, forgetAll_nil, hrun]
   simp [forgetAll_nil, hs]
 
+theorem allValid_of_allFile (ops : List Op) : ∀ s : Sys, allFile s ops = true → allValid s ops = true := by
+  induction ops with
+  | nil => intro _ _; rfl
+  | cons op rest ih =>
+    intro s h
+    simp only [allFile, Bool.and_eq_true] at h
+    simp only [allValid, Bool.and_eq_true]
+    exact ⟨h.1.1, ih _ h.2⟩
+
+theorem run_append (s : Sys) (a b : List Op) :
+    s.run (a ++ b) = (((s.run a).1.run b).1, (s.run a).2 ++ ((s.run a).1.run b).2) := by
+  induction a generalizing s with
+  | nil => simp [Sys.run]
+  | cons o rest ih => simp only [List.cons_append, Sys.run, ih, List.cons_append]
+
 end WD.Pipe
